@@ -22,6 +22,13 @@ for pid in props:
     else:
         na.append({"property_id": pid, "reason": "check not built yet (work in progress; planned per DESIGN.md section 5)"})
 m = dict(base)
+# hook commits in /repo: everything after the pinned snapshot that is not a `fix:` repair
+try:
+    log = subprocess.run(["git", "-C", "/repo", "log", "--reverse", "--format=%H %s"], capture_output=True, text=True).stdout.strip().split("\n")
+    hooks = [l.split(" ", 1)[0] for l in log[1:] if not l.split(" ", 1)[1].startswith("fix:")]
+    m["hooks"] = dict(m["hooks"], source_commits=hooks)
+except Exception:
+    pass
 m["checks"] = checks
 m["not_applicable"] = na
 out = os.path.join(V, "MANIFEST.json")
